@@ -663,14 +663,30 @@ def rule_r3(facts, rep, rid="C01-R3"):
     nexts = [x for x in fb.walk(f.body) if x.get("k") == "mcall" and x["name"] == "next" and (fb.callee(x) or "").endswith("NodeIter::next")]
     key = f.def_ + "|next-sibling-step"
     good = []
+    node_matches = A.matches_on(f, "Node")
+
+    def _is_scrutinee(construct, call):
+        """`call` is what the construct tests: `if let P = call`, `match call {..}`, `while let`, `call.map(..)`."""
+        if construct.get("k") == "if" and construct["c"].get("k") == "letx":
+            return any(y is call for y in fb.walk(construct["c"].get("init") or {}))
+        if construct.get("k") == "match":
+            return any(y is call for y in fb.walk(construct["e"]))
+        return False
     for nx in nexts:
         ps = c.parents(nx)
-        inside_match = any(p.get("k") == "match" and p.get("src") == "Normal" for p in ps)
-        # the enclosing `if let Some(next) = iter.next()` must contain a recursive call
-        iff = [p for p in ps if p.get("k") == "if"]
-        rec = iff and any(y.get("k") == "mcall" and y["name"] == "project_node" for y in fb.walk(iff[0]))
-        other_if = [p for p in ps if p.get("k") == "if" and p is not (iff[0] if iff else None)]
-        if not inside_match and rec and not other_if:
+        inside_node_match = any(p in node_matches and not any(y is nx for y in fb.walk(p["e"])) for p in ps)
+        # the construct that tests `iter.next()` (if-let / match on the Option / Option::map closure) must contain the recursive call
+        tester = None
+        for p in ps:
+            if p.get("k") in ("if", "match") and _is_scrutinee(p, nx):
+                tester = p
+                break
+            if p.get("k") == "mcall" and p.get("recv") is not None and any(y is nx for y in fb.walk(p["recv"])) and p["name"] in ("map", "and_then", "into_iter", "iter", "for_each"):
+                tester = p
+                break
+        rec = tester is not None and any(y.get("k") == "mcall" and y["name"] == "project_node" for y in fb.walk(tester))
+        other_cond = [p for p in ps if p is not tester and ((p.get("k") == "if") or (p.get("k") == "match" and p.get("src") == "Normal"))]
+        if not inside_node_match and rec and not other_cond:
             good.append(nx)
     if good:
         rep.ok(rid, key, "`if let Some(next) = iter.next()` recursion at fn level, after the match", loc(f, good[0]))
